@@ -101,22 +101,29 @@ func validateImpersonationValues(u user.Info) error {
 	if len(u.GetName()) == 0 {
 		return fmt.Errorf("a user without a name can not be impersonated")
 	}
-	if !httpguts.ValidHeaderFieldValue(u.GetName()) {
+	if !carriedUnchanged(u.GetName()) {
 		return fmt.Errorf("user name %q can not be sent in an impersonation header", u.GetName())
 	}
 	for _, group := range u.GetGroups() {
-		if !httpguts.ValidHeaderFieldValue(group) {
+		if !carriedUnchanged(group) {
 			return fmt.Errorf("group %q of user %q can not be sent in an impersonation header", group, u.GetName())
 		}
 	}
 	for k, vv := range u.GetExtra() {
 		for _, v := range vv {
-			if !httpguts.ValidHeaderFieldValue(v) {
+			if !carriedUnchanged(v) {
 				return fmt.Errorf("extra %s=%q of user %q can not be sent in an impersonation header", k, v, u.GetName())
 			}
 		}
 	}
 	return nil
+}
+
+// carriedUnchanged reports whether an HTTP header field can carry v as it is:
+// no control bytes, and no blank at either end (optional whitespace around a
+// field value is not part of the value, the receiver strips it).
+func carriedUnchanged(v string) bool {
+	return httpguts.ValidHeaderFieldValue(v) && strings.Trim(v, " \t") == v
 }
 
 func (rt *dynamicImpersonatingRoundTripper) RoundTrip(req *http.Request) (*http.Response, error) {
